@@ -237,7 +237,9 @@ example (x : Ix → ℚ) (r : Ix) :
 
 /-! ### Opamp form (`Ename Np Nm opamp Ncp Ncm Ad Ac Ro`, expanded by `Eopamp._expand`) -/
 
-/-- **opamp_expand_law**: the expansion of an opamp with output resistance Ro — a VCVS from a
+/-- (the list `[E o n2 …, R o n1 Ro]` is what the executed `Netlist.expandRaw` produces for an `opamp` line with Ro ≠ 0:
+    `opamp_expandRaw_Ro` in Props/C01Amp.lean)
+    **opamp_expand_law**: the expansion of an opamp with output resistance Ro — a VCVS from a
     fresh internal node `o` plus Ro from `o` to the output node — obeys the documented amplifier
     relation at its terminals: V(Np) − V(Nm) = Ad·(Vcp − Vcm) + Ac·(Vcp + Vcm)/2 + Ro·J, where J is the
     current flowing into the output terminal (−J is delivered to the circuit), whenever KCL holds at
